@@ -1,6 +1,7 @@
 #!/bin/bash
 # /verif/check selftest [PROP ...] : every seeded regression under /verif/seeded must make its property's check
 # report a VIOLATION (exit 1); every harmless edit under /verif/harmless must leave it at exit 0.
+# SELFTEST_ONLY=harmless|seeded restricts the run.
 # Works on scratch git worktrees of /repo (removed afterwards); /repo itself is never touched.
 HERE="$(cd "$(dirname "$0")/.." && pwd)"
 FILTER="$*"
@@ -16,11 +17,13 @@ run_one() {   # <prop> <patch> <expected exit> <label>
   git -C /repo worktree remove --force $WT; rm -rf $OUT
 }
 for d in $HERE/seeded/*/; do
+  [ "$SELFTEST_ONLY" = "harmless" ] && break
   id=$(basename $d); prop=${id%%-*}
   [ -n "$FILTER" ] && ! echo " $FILTER " | grep -q " $prop " && continue
   run_one $prop $d/patch.diff 1 "seeded/$id"
 done
 for p in $HERE/harmless/*.diff; do
+  [ "$SELFTEST_ONLY" = "seeded" ] && break
   [ -e "$p" ] || continue
   base=$(basename $p .diff); prop=${base%%-*}
   [ -n "$FILTER" ] && ! echo " $FILTER " | grep -q " $prop " && continue
